@@ -67,6 +67,10 @@ def chainStep (sb : Nat) (nmal : Nat) (p : Nat) (tag : String) (s : String) : Op
   if s.startsWith "+" then (parseInt? (s.drop 1).toString).map fun n => arith .add n
   else if s.startsWith "-" then (parseInt? (s.drop 1).toString).map fun n => arith .sub n
   else if s.startsWith "[" then (parseInt? (s.drop 1).toString).map fun n => arith .index n
+  else if s.startsWith "ae" then (parseInt? (s.drop 2).toString).map fun k =>
+    match stepPtr 16 p (.elem k 4 4) with
+    | some q => .ok (q, "i")
+    | none => .error "abort"
   else match s with
   | "ci" => some (.ok (p, "i")) | "cc" => some (.ok (p, "c")) | "cpp" => some (.ok (p, "pp"))
   | "cst" => some (.ok (p, "st")) | "opq" => some (.ok (p, tag)) | "ad" => some (.ok (p, tag))
